@@ -7,6 +7,7 @@ import (
 	"fmt"
 	"strings"
 	"testing"
+	"time"
 
 	"github.com/rs/zerolog"
 
@@ -86,27 +87,39 @@ func soakTerm(id uint64, in *SoakInput, obs *SoakObs) string {
 
 func fanTerm(id uint64, in *FanInput, obs *FanObs) string {
 	evs := make([]string, len(in.Evs))
-	timeout := false
 	for i, ev := range in.Evs {
-		if ev.Timeout {
-			evs[i] = "FTimeout"
-			timeout = true
-		} else {
-			evs[i] = App("FRelease", Nat(ev.I), Bool(ev.OK))
+		switch {
+		case ev.Timeout:
+			evs[i] = "RvCallerEnd"
+		case ev.Deadline:
+			evs[i] = "RvDeadline"
+		default:
+			evs[i] = App("RvRelease", Nat(ev.I), Bool(ev.OK))
 		}
 	}
-	// the `first` strategies always run under a deadline; unblindProposal only if the history ends its context
-	if in.Kind != kindUnblind {
-		timeout = true
+	hon := make([]string, in.N)
+	for i := range hon {
+		hon[i] = Bool(i < len(in.Honour) && in.Honour[i])
 	}
-	blocked := obs.Blocked
+	rows := make([]string, len(obs.Rows))
+	for i, r := range obs.Rows {
+		infl := r.Inflight
+		if infl < 0 {
+			infl = 0
+		}
+		rows[i] = Pair(Bool(r.Returned), N(uint64(infl)))
+	}
+	blocked, alive := obs.Blocked, obs.Alive
 	if blocked < 0 {
 		blocked = 0
 	}
-	// unblindProposal's collector is told when every relay has given up
-	detect := in.Kind == kindUnblind
-	return Record("c_id", N(id), "c_body", App("Fan", N(uint64(in.Kind)), Nat(in.N), Bool(timeout), Bool(detect), List(evs),
-		Bool(obs.Returned), Bool(obs.OK), N(uint64(blocked))))
+	if alive < 0 {
+		alive = 0
+	}
+	// which context the requests carry, whether there is a deadline and an all-failed notice follow
+	// from the kind (Check.C20.req_init)
+	return Record("c_id", N(id), "c_body", App("Req", N(uint64(in.Kind)), Nat(in.N), List(hon), Nat(in.effCalls()),
+		Bool(in.EndCaller), List(evs), List(rows), Bool(obs.Returned), Bool(obs.OK), N(uint64(blocked)), N(uint64(alive))))
 }
 
 // ---------------------------------------------------------------------------------------------
@@ -190,6 +203,63 @@ func genFan(r *Rand, kind int, family string) FanInput {
 	return in
 }
 
+// genFanSilent: nodes that never answer.  Some providers honour their request context and are
+// never released; the caller's context lives on after the call (as the attester's does, slot after
+// slot); the script is run several times on the same service.  Either another provider answers,
+// or (`first` strategies, family "deadline-silent") the strategy's own timeout passes first.
+// What must hold: once the call is back (for unblinding: once the caller's context has ended)
+// nothing is outstanding at a provider that would return when told to.
+func genFanSilent(r *Rand, kind int, family string) FanInput {
+	n := r.Range(2, 5)
+	in := FanInput{Kind: kind, N: n, Honour: make([]bool, n), Calls: r.Range(1, 4)}
+	deadline := family == "deadline-silent" && kind != kindUnblind
+	nSilent := r.Range(1, n-1)
+	if deadline && r.Chance(1, 3) {
+		nSilent = n // no node answers at all
+	}
+	order := r.Perm(n)
+	silent := map[int]bool{}
+	for _, i := range order[:nSilent] {
+		silent[i] = true
+		in.Honour[i] = true
+	}
+	var rest []int
+	for _, i := range order[nSilent:] {
+		rest = append(rest, i)
+		in.Honour[i] = r.Chance(1, 3)
+	}
+	ctxDone := false // the request context has ended
+	if deadline {
+		in.Evs = append(in.Evs, FanEv{Deadline: true})
+		ctxDone = true
+	}
+	// unblinding: sometimes no other relay delivers; the call then comes back only when its caller gives up
+	noneDelivers := kind == kindUnblind && r.Chance(1, 4)
+	okAt := -1
+	if !deadline && !noneDelivers {
+		okAt = r.Range(0, len(rest)-1)
+	}
+	for pos, i := range rest {
+		if in.Honour[i] && ctxDone {
+			continue // cut off: it has returned the context's error
+		}
+		ok := pos == okAt || (!noneDelivers && r.Chance(1, 2))
+		in.Evs = append(in.Evs, FanEv{I: i, OK: ok})
+		if ok && kind != kindUnblind {
+			ctxDone = true // first answer: the strategy ends the call's context
+		}
+	}
+	if noneDelivers {
+		in.Evs = append(in.Evs, FanEv{Timeout: true})
+		in.Calls = 1
+	} else if kind == kindUnblind {
+		in.EndCaller = r.Chance(2, 3)
+	} else {
+		in.EndCaller = r.Chance(1, 4)
+	}
+	return in
+}
+
 func fanTags(in *FanInput) []string {
 	tags := []string{"fan", "fan-" + kindNames[in.Kind]}
 	succ, timeout := 0, false
@@ -211,6 +281,26 @@ func fanTags(in *FanInput) []string {
 	}
 	if timeout {
 		tags = append(tags, "fan-context-ends")
+	}
+	hasEv := map[int]bool{}
+	for _, ev := range in.Evs {
+		if ev.Deadline {
+			tags = append(tags, "fan-deadline-passes")
+		} else if !ev.Timeout {
+			hasEv[ev.I] = true
+		}
+	}
+	for i := 0; i < in.N; i++ {
+		if !hasEv[i] && i < len(in.Honour) && in.Honour[i] {
+			tags = append(tags, "fan-node-never-answers")
+			break
+		}
+	}
+	if in.effCalls() > 1 {
+		tags = append(tags, "fan-several-calls-one-service")
+	}
+	if in.EndCaller {
+		tags = append(tags, "fan-caller-ends-afterwards")
 	}
 	return tags
 }
@@ -506,7 +596,7 @@ func genSoak(r *Rand, epochs int, spe uint64) (SoakInput, []string) {
 
 func TestC20(t *testing.T) {
 	col := NewCollector("C20", "Check.C20",
-		"a soak case is non-trivial when it has at least one started attestation job and one head event; a fan case when at least one provider answers; a jobs case when a job is scheduled")
+		"a soak case is non-trivial when it has at least one started attestation job and one head event; a fan case when at least one provider answers or the strategy's deadline passes; a jobs case when a job is scheduled")
 	col.ShardSize = 25
 	zerolog.SetGlobalLevel(zerolog.TraceLevel) // as vouch's main does (logging.go)
 	rng := NewRand(Seed())
@@ -532,8 +622,11 @@ func TestC20(t *testing.T) {
 		col.Add(Case{Term: soakTerm(col.NextID(), in, &obs), Key: string(key), Nontrivial: starts > 0 && heads > 0, Tags: tags,
 			Sample: map[string]any{"input": Input{Soak: in}, "observed": Observed{Soak: summarise(&obs)}}})
 	}
+	famTime := map[string]time.Duration{}
 	addFan := func(in *FanInput, family string) {
+		t0 := time.Now()
 		obs := runFan(in)
+		famTime[family] += time.Since(t0)
 		tags := fanTags(in)
 		if family != "" {
 			tags = append(tags, "fan-family-"+family)
@@ -549,7 +642,7 @@ func TestC20(t *testing.T) {
 		answered := false
 		for _, ev := range in.Evs {
 			if !ev.Timeout {
-				answered = true
+				answered = true // a provider answers, or the strategy's deadline passes
 			}
 		}
 		col.Count("fan-" + kindNames[in.Kind])
@@ -580,6 +673,11 @@ func TestC20(t *testing.T) {
 			Sample: map[string]any{"input": Input{Jobs: in}, "observed": Observed{Jobs: last}}})
 	}
 
+	phase := time.Now()
+	lap := func(what string) {
+		t.Logf("%s: %.1f s", what, time.Since(phase).Seconds())
+		phase = time.Now()
+	}
 	for _, in := range LoadInputs[Input]("C20") {
 		in := in
 		switch {
@@ -592,9 +690,11 @@ func TestC20(t *testing.T) {
 		}
 	}
 
+	lap("corpus")
 	if n > 0 {
 		// fan-out: every function under test in every family
-		families := []string{"all-at-once", "mixed", "timeout-first", "late-all-ok", "timeout-mid", "silent", "all-fail", "single", "random"}
+		families := []string{"all-at-once", "mixed", "timeout-first", "late-all-ok", "timeout-mid", "silent", "all-fail", "single", "random",
+			"silent-node", "deadline-silent"}
 		nFan := n / 2
 		for i := 0; i < nFan; i++ {
 			r := rng.Fork()
@@ -602,6 +702,11 @@ func TestC20(t *testing.T) {
 			family := families[(i/nKinds)%len(families)]
 			if kind == kindUnblind && (family == "silent") {
 				family = "mixed"
+			}
+			if family == "silent-node" || family == "deadline-silent" {
+				in := genFanSilent(r, kind, family)
+				addFan(&in, family)
+				continue
 			}
 			in := genFan(r, kind, family)
 			if kind == kindUnblind {
@@ -614,6 +719,15 @@ func TestC20(t *testing.T) {
 			}
 			addFan(&in, family)
 		}
+		// nodes that never answer, under a caller context that lives on: some more of every function
+		for i := 0; i < n/10; i++ {
+			r := rng.Fork()
+			family := []string{"silent-node", "deadline-silent"}[(i/nKinds)%2]
+			in := genFanSilent(r, i%nKinds, family)
+			addFan(&in, family)
+		}
+		lap("fan-out")
+		t.Logf("fan-out by family: %v", famTime)
 		// the real scheduler's job table
 		nJobs := n / 6
 		for i := 0; i < nJobs; i++ {
@@ -625,6 +739,7 @@ func TestC20(t *testing.T) {
 			in, tags := genJobs(r, ops)
 			addJobs(&in, tags)
 		}
+		lap("jobs")
 		// soaks: many short, some medium, a few long (50+ epochs)
 		nSoak := n - nFan - nJobs
 		long := 4
@@ -649,6 +764,7 @@ func TestC20(t *testing.T) {
 			addSoak(&in, tags)
 		}
 	}
+	lap("soaks")
 	if err := col.Flush(); err != nil {
 		t.Fatal(err)
 	}
